@@ -1042,6 +1042,14 @@ func fsC06Scenarios(thorough bool) []*fsScenario {
 		sc := mk("reject-write")
 		sc.DownFault = true
 		out = append(out, sc)
+		// the rejected pack sits in the middle of a batch: later packs of the same stream are already in the batcher's hands
+		for _, mc := range []int{2, 3} {
+			sc = mk(fmt.Sprintf("reject-write-batch%d", mc))
+			sc.MaxCount = mc
+			sc.Colls[0].Shards[0].Script = fsTail([]fsPack{fpIns(1000), fpInsDel(1010), fpDel(1020), fpIns(1030)}, mc)
+			sc.DownFault = true
+			out = append(out, sc)
+		}
 		sc = mk("reject-write-repeated")
 		sc.DownFault, sc.RepeatFault = true, true
 		out = append(out, sc)
